@@ -162,7 +162,9 @@ def host : Host :=
       let f := Float.ofBits b.toUInt64
       if f.isNaN || f.isInf then none else some f.toInt64.toInt
     method := hostMethod
-    arg := hostArg }
+    arg := hostArg
+    -- the runtime mock's `QCoreApplication::translate(context, source)` (cxx/rt/qtrt.h): `<context>source`
+    tr := fun ctx x => ("<" ++ ctx ++ ">").toList ++ x }
 
 /-! ### static facts from the real type map -/
 
@@ -210,8 +212,12 @@ structure Variant where
       emitted as a C++ `long` literal: template deduction / overload resolution fails, the header does not compile -/
   longConst : Bool := false
 
-def specCtx (t : EnumTable) (v : Variant := {}) : QV.Spec.Sem.Ctx :=
+/-- `doc`: the type name of the document the program is part of (the harness translates the k-th program of a batch
+    as document type `T<k>`, single programs as `MyType`; the root object is anonymous in all of them, so its generated
+    name never equals the type name) -/
+def specCtx (t : EnumTable) (v : Variant := {}) (doc : String := "MyType") : QV.Spec.Sem.Ctx :=
   { argsFirst := v.argsFirst
+    docType := doc
     H := host
     objects := objectTable
     thisObj := some (1, "VBase")
@@ -223,6 +229,7 @@ def specCtx (t : EnumTable) (v : Variant := {}) : QV.Spec.Sem.Ctx :=
 
 def irCtx (t : EnumTable) : IrSem.ICtx :=
   { H := host
+    docType := "MyType"
     named := objId
     enumVariant := enumValue t }
 
@@ -253,12 +260,16 @@ def parse (args : List Sexp) : Option Parsed := do
     | _ => pure ()
   pure { enums, init, states, progs, impl }
 
+/-- the document type name of the k-th program of a `spec-c01` / `spec-c13` batch (harness: `format!("T{k}")`) -/
+def batchDoc (k : Nat) : String := "T" ++ toString k
+
 def propTyOf (t : EnumTable) (prop : String) : Ty :=
   (((specCtx t).propTy "VBase" prop).map (·.ty)).getD .int
 
 /-- value of the binding under the reference semantics in each state: `some sexp` or `none` (undefined) -/
-def specValues (p : Parsed) (prop : String) (prog : Program) (v : Variant := {}) : List (Option Sexp) :=
-  let c := specCtx p.enums v
+def specValues (p : Parsed) (prop : String) (prog : Program) (v : Variant := {}) (doc : String := "MyType") :
+    List (Option Sexp) :=
+  let c := specCtx p.enums v doc
   p.states.map fun st => (QV.Spec.Sem.bindingValue c prog (worldOf st) (propTyOf p.enums prop)).map showVal
 
 def optShow : Option Sexp → Sexp
@@ -329,7 +340,8 @@ def handleSpecC01 (args : List Sexp) (v : Variant := {}) : Sexp :=
     match p.impl with
     | none =>
       -- no implementation answer: print the specification's values
-      .list (.atom "values" :: p.progs.map fun (prop, prog) => .list (.atom "v" :: (specValues p prop prog v).map optShow))
+      .list (.atom "values" :: (p.progs.zipIdx).map fun ((prop, prog), k) =>
+        .list (.atom "v" :: (specValues p prop prog v (batchDoc k)).map optShow))
     | some (.list (.atom "results" :: rs)) =>
       let rec go (k : Nat) (cmp und skipped : Nat) (bad : List Sexp) : List (String × Program) → List Sexp → Sexp
         | [], _ =>
@@ -342,7 +354,7 @@ def handleSpecC01 (args : List Sexp) (v : Variant := {}) : Sexp :=
              let impl := vals.map fun v => match v with
                | .list (.atom "fail" :: _) => none
                | v => some v
-             let (c, u, b) := compareValues (specValues p prop prog v) impl
+             let (c, u, b) := compareValues (specValues p prop prog v (batchDoc k)) impl
              let bad1 := match setupFailure p prop prog setup with
                | some f => bad ++ [.list [.atom "p", .ofNat k, .atom "setup-crash", f]]
                | none => bad
@@ -451,8 +463,9 @@ def parse13 (args : List Sexp) : Option Parsed13 := do
   pure { enums, states, sigargs, handlers, impl }
 
 /-- the trace the reference semantics prescribes for the handler in each state (`none`: undefined) -/
-def specTraces (p : Parsed13) (sg : String) (prog : Program) (v : Variant := {}) : List (Option Sexp) :=
-  let c := specCtx p.enums v
+def specTraces (p : Parsed13) (sg : String) (prog : Program) (v : Variant := {}) (doc : String := "MyType") :
+    List (Option Sexp) :=
+  let c := specCtx p.enums v doc
   (p.states.zip p.sigargs).map fun (st, sa) =>
     let args := ((sa.find? (·.1 = sg)).map (·.2)).getD []
     (QV.Spec.Sem.run c prog (worldOf st) args).map fun r => .list (.atom "t" :: r.trace.map showEv)
@@ -463,7 +476,8 @@ def handleSpecC13 (args : List Sexp) (v : Variant := {}) : Sexp :=
   | none => .list [.atom "bad-request"]
   | some p =>
     match p.impl with
-    | none => .list (.atom "traces" :: p.handlers.map fun (sg, prog) => .list (.atom "h" :: (specTraces p sg prog v).map optShow))
+    | none => .list (.atom "traces" :: (p.handlers.zipIdx).map fun ((sg, prog), k) =>
+        .list (.atom "h" :: (specTraces p sg prog v (batchDoc k)).map optShow))
     | some (.list (.atom "results" :: rs)) =>
       let rec go (k : Nat) (cmp und skipped : Nat) (bad : List Sexp) : List (String × Program) → List Sexp → Sexp
         | [], _ =>
@@ -478,7 +492,7 @@ def handleSpecC13 (args : List Sexp) (v : Variant := {}) : Sexp :=
              let impl := vals.map fun v => match v with
                | .list (.atom "fail" :: _) => none
                | v => some v
-             let (c, u, b) := compareValues (specTraces p sg prog v) impl
+             let (c, u, b) := compareValues (specTraces p sg prog v (batchDoc k)) impl
              let bad1 := if setupOk then bad else bad ++ [.list [.atom "p", .ofNat k, .atom "connections", setup]]
              let bad' := if b.isEmpty then bad1 else bad1 ++ [.list (.atom "p" :: .ofNat k :: .atom "trace" :: b.take 2)]
              go (k + 1) (cmp + c) (und + u) skipped bad' ps (rs.drop 1)
